@@ -517,6 +517,10 @@ func (e *Exec) applyContract(st *State, fr *Frame, ci *callInfo, c *FuncContract
 	preNow := st.now
 	// frame
 	e.applyAssigns(st, env, c)
+	if c.Attrs["blocks"] == "true" {
+		// other goroutines run while the callee is blocked
+		e.interfere(st)
+	}
 	nt := e.freshConst("top.call", SInt)
 	st.assert(Ge(nt, st.allocTop))
 	st.allocTop = nt
@@ -634,6 +638,19 @@ func (e *Exec) assignTarget(env *SpecEnv, a *SExpr) (out []assignTarget, err err
 		}
 	}()
 	switch a.Op {
+	case "frameref":
+		fr, ok := e.eng.specs.Frames[a.Name]
+		if !ok {
+			return nil, fmt.Errorf("unknown frame @%s", a.Name)
+		}
+		for _, x := range fr {
+			ts, err := e.assignTarget(env, x)
+			if err != nil {
+				return nil, err
+			}
+			out = append(out, ts...)
+		}
+		return out, nil
 	case "id":
 		switch a.Name {
 		case "trace", "now", "fs", "fresh":
@@ -665,6 +682,35 @@ func (e *Exec) assignTarget(env *SpecEnv, a *SExpr) (out []assignTarget, err err
 				out = append(out, assignTarget{key: "mapval:" + typeKey(mt) + l.Suffix, sort: ArrS(ks, l.Sort), obj: v.L[0]})
 			}
 			return out, nil
+		case "mapsof": // every map stored in field f of any object of type T: mapsof(T.f)
+			sel := a.Args[1]
+			if sel.Op != "sel" || sel.Args[0].Op != "id" {
+				return nil, fmt.Errorf("mapsof wants Type.field")
+			}
+			t := env.specType(sel.Args[0].Name)
+			stt, ok := t.Underlying().(*types.Struct)
+			if !ok {
+				return nil, fmt.Errorf("mapsof: %s is not a struct", sel.Args[0].Name)
+			}
+			for i := 0; i < stt.NumFields(); i++ {
+				if stt.Field(i).Name() != sel.Name {
+					continue
+				}
+				mt, ok := stt.Field(i).Type().Underlying().(*types.Map)
+				if !ok {
+					return nil, fmt.Errorf("mapsof: field is not a map")
+				}
+				dk, ks, ok := mapKeys(mt)
+				if !ok {
+					return nil, nil
+				}
+				out = append(out, assignTarget{key: dk, sort: ArrS(ks, SBool), whole: true})
+				for _, l := range flatten(mt.Elem()) {
+					out = append(out, assignTarget{key: "mapval:" + typeKey(mt) + l.Suffix, sort: ArrS(ks, l.Sort), whole: true})
+				}
+				return out, nil
+			}
+			return nil, fmt.Errorf("mapsof: no such field")
 		case "elemsof":
 			v := env.eval(a.Args[1])
 			el := v.T.Underlying().(*types.Slice).Elem()
@@ -757,4 +803,3 @@ func (e *Exec) monotoneLinkFrom(st *State, key string, old, nw Term) {
 	}
 	st.assert(Term{fmt.Sprintf("(forall ((x Int)) (! (=> (select %s x) (select %s x)) :pattern ((select %s x))))", old.S, nw.S, nw.S), SBool})
 }
-
